@@ -41,7 +41,7 @@ def run(tier):
     R, D = (3, 3) if tier == 'quick' else (4, 4)
     members = list(c15lib.members())
     run.bounds = {'table_rows_max': R, 'value_range': [0, D], 'window': '1..%d (symbolic)' % R, 'user_constants': 'symbolic in range',
-                  'family': 'time condition (9) x partition filter (3) x group-by columns 0..2 x model side x LIMIT = %d members' % len(members)}
+                  'family': 'time condition (9) x partition filter (3) x group-by columns 0..2 x model side x LIMIT, plus time condition (8) x partition filter (2) x 5 other orders / groupings of the WHERE conjuncts x group-by columns 1..2 = %d members' % len(members)}
     run.functions = ['plan_query -> PlanJoinTSPredictorQuery.plan / plan_timeseries_predictor (real, per family member)', 'ts_utils.*',
                      'emitted FetchDataframeStep / MultipleSteps / MapReduceStep queries (interpreted symbolically by SYMREL)']
     run.assumptions = ['ties excluded: within a partition the non-NULL order values of present rows are pairwise distinct (with ties the engine may return any window)',
